@@ -97,6 +97,7 @@ pub fn run(args: &Args) {
     let n_grammars = args.budget(20_000, 1_500_000);
     let mut cfg = GenCfg::new(Profile::Full);
     cfg.max_rules = 6;
+    cfg.negpred_pct = 12;
     for gi in 0..n_grammars {
         if rep.elapsed() > args.max_s {
             rep.notes.insert("stopped_early_at_grammar".into(), json!(gi));
